@@ -4,6 +4,9 @@ in a fresh process (the closure allocator of _cffi_backend is process-wide state
 argv[1]: JSON config {"helper": path of the C caller library, "careful": bool}
 stdin  : one JSON document: list of operations
            ["create", c, sig] ["createfail"] ["reject"] ["drop", c] ["dropcyc", c] ["gc"]
+           ["createoom", c, sig, n]      ffi.callback() with the n-th memory allocation failing
+                                         (_testcapi.set_nomemory): MemoryError, or a callback c that is
+                                         called once and dropped at once (same net effect on the allocator)
            ["call", c, via, args]          via: "cdata" | "C"
 stdout : one JSON line per event (flushed after every line in careful mode, preceded by {"at": i})
 """
@@ -42,6 +45,13 @@ def main():
     helper = ffi.dlopen(cfg["helper"])
     gc.disable()
     out = sys.stdout
+    try:
+        import _testcapi
+        set_nomemory, remove_mem_hooks = _testcapi.set_nomemory, _testcapi.remove_mem_hooks
+    except (ImportError, AttributeError):
+        set_nomemory = remove_mem_hooks = None
+    BTYPES = dict((k, ffi.typeof(v.replace("(", "(*)(", 1))) for k, v in SIGS.items())
+    backend_callback = ffi._backend.callback
     RAN, RECV, RETD = [], [], []
 
     def result(c, s, args):
@@ -88,6 +98,43 @@ def main():
                 emit({"ev": "createfail"})
             else:
                 emit({"ev": "harness-error", "what": "variadic callback accepted"})
+        elif kind == "createoom":
+            c, s, n = op[1], op[2], op[3]
+            if set_nomemory is None:
+                emit({"ev": "skipped", "what": "no _testcapi.set_nomemory"})
+                continue
+            fn, bt = make(c, s), BTYPES[s]
+            cb = exc = None
+            set_nomemory(n, n + 1)               # exactly one allocation fails
+            try:
+                try:
+                    cb = backend_callback(bt, fn)
+                finally:
+                    remove_mem_hooks()
+            except MemoryError:
+                exc = "MemoryError"
+            except Exception as e:               # noqa
+                exc = type(e).__name__
+            del fn
+            if cb is None:
+                emit({"ev": "createfail", "why": "oom", "n": n, "exc": exc})
+            else:
+                # the failing allocation was not reached (or absorbed): a real callback; use and drop it
+                cbs[c], sigs[c] = cb, s
+                emit({"ev": "create", "c": c, "s": s, "addr": int(ffi.cast("uintptr_t", cb)), "oom_n": n})
+                del cb
+                args = [3] if s == "i" else [3.0, 4.0] if s == "d" else [3, 4] if s in ("q", "h") else []
+                del RAN[:], RECV[:], RETD[:]
+                try:
+                    ret, cexc = cbs[c](*args), ""
+                except Exception as e:           # noqa
+                    ret, cexc = None, type(e).__name__
+                emit({"ev": "call", "c": c, "via": "cdata", "s": s, "ran": list(RAN), "sent": [enc(a) for a in args],
+                      "recv": [enc(a) for a in RECV[-1]] if RECV else [["none", 0]],
+                      "ret": enc(ret) if not cexc else ["exc", 0], "exc": cexc,
+                      "exp": enc(RETD[-1]) if RETD else ["none", 0]})
+                del cbs[c], sigs[c]
+                emit({"ev": "drop", "c": c})
         elif kind == "reject":
             try:
                 ffi.callback("int(int)", 42)
@@ -95,6 +142,8 @@ def main():
                 emit({"ev": "reject"})
             else:
                 emit({"ev": "harness-error", "what": "non-callable accepted"})
+        elif kind in ("drop", "dropcyc", "call") and op[1] not in cbs:
+            emit({"ev": "skipped", "what": "no such callback"})
         elif kind == "drop":
             c = op[1]
             del cbs[c]
